@@ -80,13 +80,13 @@ def letters : Ans → Option (List Char)
 structure CdsInv (cfg : CdsCfg γ) (c : γ) (s : CdsState γ) : Prop where
   core : s.core = c
   seq : ∀ v, s.seqMemo = some v → letters v = some (cfg.pathA c)
-  codons : ∀ n, s.codonsMemo = some n → n = (cfg.pathB c).length / 3
+  codons : ∀ n, s.codonsMemo = some n → n = cfg.chunkCodons c
 
 theorem cdsInv_fresh (cfg : CdsCfg γ) (c : γ) : CdsInv cfg c (CdsState.fresh c) :=
   ⟨rfl, by intro v h; simp [CdsState.fresh] at h, by intro n h; simp [CdsState.fresh] at h⟩
 
 theorem listCodons_inv {cfg : CdsCfg γ} {c : γ} {s : CdsState γ} (h : CdsInv cfg c s) :
-    CdsInv cfg c (listCodons cfg s).1 ∧ (listCodons cfg s).2 = (cfg.pathB c).length / 3 := by
+    CdsInv cfg c (listCodons cfg s).1 ∧ (listCodons cfg s).2 = cfg.chunkCodons c := by
   unfold listCodons
   split
   · rename_i n hn; exact ⟨h, h.codons n hn⟩
@@ -133,7 +133,8 @@ theorem extract_invW {cfg : CdsCfg γ} {c : γ} {s : CdsState γ} (heq : cfg.pat
 
 theorem cdsStep_invW {cfg : CdsCfg γ} {c : γ} {s : CdsState γ} (heq : cfg.pathA c = cfg.pathB c)
     (hw : cfg.repaired = true) (h : CdsInvW cfg c s) (o : CdsOp) :
-    CdsInvW cfg c (cdsStep cfg s o).1 ∧ (cdsStep cfg s o).2 = freshAns (cfg.pathA c) o := by
+    CdsInvW cfg c (cdsStep cfg s o).1 ∧
+      (cdsStep cfg s o).2 = freshAns (cfg.pathA c) (cfg.chunkCodons c) (cfg.totalCodons c) o := by
   cases o with
   | listCodons =>
     have hl := listCodons_inv h.toCdsInv
@@ -142,7 +143,7 @@ theorem cdsStep_invW {cfg : CdsCfg γ} {c : γ} {s : CdsState γ} (heq : cfg.pat
       apply h.seqW v
       simp only [cdsStep, listCodons] at hv
       split at hv <;> exact hv
-    · simp only [cdsStep, freshAns, hl.2, heq]
+    · simp only [cdsStep, freshAns, hl.2]
   | numCodons =>
     have hl := listCodons_inv h.toCdsInv
     refine ⟨⟨hl.1, ?_⟩, ?_⟩
@@ -150,7 +151,7 @@ theorem cdsStep_invW {cfg : CdsCfg γ} {c : γ} {s : CdsState γ} (heq : cfg.pat
       apply h.seqW v
       simp only [cdsStep, listCodons] at hv
       split at hv <;> exact hv
-    · simp only [cdsStep, freshAns, hl.2, heq]
+    · simp only [cdsStep, freshAns, hl.2]
   | extract =>
     have he := extract_invW heq hw h
     exact ⟨he.1, by simp only [cdsStep, freshAns, he.2]⟩
@@ -161,10 +162,11 @@ theorem cdsStep_invW {cfg : CdsCfg γ} {c : γ} {s : CdsState γ} (heq : cfg.pat
       rw [he.2]; exact he.1
     · simp only [cdsStep, validStop, freshAns]
       rw [he.2]
+  | totalCodons => exact ⟨h, by simp only [cdsStep, freshAns, h.core]⟩
 
 theorem cdsRun_patched {cfg : CdsCfg γ} {c : γ} (heq : cfg.pathA c = cfg.pathB c) (hw : cfg.repaired = true) :
     ∀ (hist : List CdsOp) {s : CdsState γ}, CdsInvW cfg c s →
-    (cdsRun cfg s hist).2 = hist.map (freshAns (cfg.pathA c))
+    (cdsRun cfg s hist).2 = hist.map (freshAns (cfg.pathA c) (cfg.chunkCodons c) (cfg.totalCodons c))
   | [], _, _ => rfl
   | o :: os, s, h => by
     have hs := cdsStep_invW heq hw h o
@@ -179,6 +181,7 @@ theorem cdsStep_inv {cfg : CdsCfg γ} {c : γ} {s : CdsState γ} (heq : cfg.path
   | listCodons => exact ⟨(listCodons_inv h).1, by intro e; cases e⟩
   | numCodons => exact ⟨(listCodons_inv h).1, by intro e; cases e⟩
   | extract => exact ⟨(extract_inv heq h).1, fun _ => (extract_inv heq h).2⟩
+  | totalCodons => exact ⟨h, by intro e; cases e⟩
   | validStop =>
     refine ⟨?_, by intro e; cases e⟩
     have he := extract_inv heq h
